@@ -222,7 +222,7 @@ func c11Negatives() []*RejectCase {
 		out = append(out, &RejectCase{P: b.P, Class: "bad-bind", Cell: "negative:" + v})
 	}
 	// binding whose set does not provide the concrete type
-	for _, v := range []string{"concrete-absent", "concrete-in-sibling-set", "concrete-only-as-pointer"} {
+	for _, v := range []string{"concrete-absent", "concrete-in-sibling-set", "concrete-only-as-pointer", "inline-set-concrete-in-build", "inline-set-concrete-in-enclosing-named-set", "inline-set-in-inline-set-concrete-in-outer", "named-set-concrete-in-enclosing-named-set"} {
 		v := v
 		b := NewPB("bn_"+v, "app")
 		c := b.Carrier(0, "Conc")
@@ -242,6 +242,33 @@ func c11Negatives() []*RejectCase {
 			f := b.Func(0, "NewConcPtr", PtrTo(c), false, false)
 			f.Stub = true
 			build = []Ref{ItemRef(f.ID), ItemRef(bd.ID)}
+		case "inline-set-concrete-in-build":
+			f := b.Func(0, "NewConc", c, false, false)
+			f.Stub = true
+			s1 := b.Set(0, "BindSet", ItemRef(bd.ID))
+			s1.Inline = true
+			build = []Ref{SetRef(s1.ID), ItemRef(f.ID)}
+		case "inline-set-concrete-in-enclosing-named-set":
+			f := b.Func(0, "NewConc", c, false, false)
+			f.Stub = true
+			s1 := b.Set(0, "BindSet", ItemRef(bd.ID))
+			s1.Inline = true
+			s2 := b.Set(0, "OuterSet", ItemRef(f.ID), SetRef(s1.ID))
+			build = []Ref{SetRef(s2.ID)}
+		case "inline-set-in-inline-set-concrete-in-outer":
+			f := b.Func(0, "NewConc", c, false, false)
+			f.Stub = true
+			s1 := b.Set(0, "BindSet", ItemRef(bd.ID))
+			s1.Inline = true
+			s2 := b.Set(0, "MidSet", SetRef(s1.ID), ItemRef(f.ID))
+			s2.Inline = true
+			build = []Ref{SetRef(s2.ID)}
+		case "named-set-concrete-in-enclosing-named-set":
+			f := b.Func(0, "NewConc", c, false, false)
+			f.Stub = true
+			s1 := b.Set(0, "BindSet", ItemRef(bd.ID))
+			s2 := b.Set(0, "OuterSet", ItemRef(f.ID), SetRef(s1.ID))
+			build = []Ref{SetRef(s2.ID)}
 		}
 		b.Inj("Init", ifc, false, false, nil, build...)
 		b.P.Note = "bind-negative:" + v
